@@ -1,6 +1,7 @@
 package props
 
 import (
+	"encoding/binary"
 	"fmt"
 	"io"
 	"math/rand"
@@ -577,7 +578,7 @@ func c16Churn(rng *rand.Rand, n int) []c16Case {
 
 // C16 — closing one end of a bridged TCP connection closes the other.
 func C16(r *core.Run) {
-	r.SetRule("harness TCP client -> real tcp-bridge-frontend -> real tcp-bridge-backend -> harness TCP server; per connection one peer closes first ({client, server} x {never used, idle after an exchange, its own data in flight, the other peer's data in flight, both} x sizes; full close, CloseWrite followed by close, abortive close (SetLinger(0) or Close with unread data), 4-16 MiB bursts closed at once towards a slow-reading peer, and a 32 MiB burst closed at once towards a peer that reads nothing for 14 s); websocket handshakes on the streaming path that the backend refuses (extensions offered, bad version, no key, foreign origin, POST) must leave no connection to the TCP server; the other peer must read end-of-stream within T=10s of (close, last byte of the data sent before the close); with both peers gone each bridge process' socket count (/proc/<pid>/fd) must be back at its idle baseline within T; a missed bound is re-run alone on a fresh pair of bridge processes before it is reported; class = (phase, who closes first, close kind, what is in flight, sizes)")
+	r.SetRule("harness TCP client -> real tcp-bridge-frontend -> real tcp-bridge-backend -> harness TCP server; per connection one peer closes first ({client, server} x {never used, idle after an exchange, its own data in flight, the other peer's data in flight, both} x sizes; full close, CloseWrite followed by close, abortive close (SetLinger(0) or Close with unread data), 4-16 MiB bursts closed at once towards a slow-reading peer, and a 32 MiB burst closed at once towards a peer that reads nothing for 14 s); 100 (thorough 500) short connections strictly one after the other through the same processes; 3000 (thorough 24000) rounds in which both peers of a connection close at nearly the same instant, then a liveness probe; websocket handshakes on the streaming path that the backend refuses (extensions offered, bad version, no key, foreign origin, POST) must leave no connection to the TCP server; the other peer must read end-of-stream within T=10s of (close, last byte of the data sent before the close); with both peers gone each bridge process' socket count (/proc/<pid>/fd) must be back at its idle baseline within T; a missed bound is re-run alone on a fresh pair of bridge processes before it is reported; class = (phase, who closes first, close kind, what is in flight, sizes)")
 	r.Assume("a half close (CloseWrite) is only observed; the verdict is taken after the same peer has fully closed")
 	r.Assume("completeness of the data sent before the close is judged only for a graceful close by a peer that had nothing unread (never used / idle / own data in flight, including the slow-reader bursts); for abortive closes only the propagation of the close and the release of the sockets are judged: closing a TCP socket with unread data resets the connection and may discard the closer's own data even without a bridge")
 	bins := bridgeBuild(r)
@@ -644,6 +645,15 @@ func C16(r *core.Run) {
 		time.Sleep(20 * time.Millisecond)
 	}
 	wg.Wait()
+	// one connection after the other through the same two processes: a connection must close
+	// properly whatever the earlier, finished connections left behind in the process
+	seqCases := c16SeqCases(r.Pick(100, 500), len(cases))
+	// simultaneous closes run on processes of their own, alongside the remaining phases
+	simDone := make(chan c16SimResult, 1)
+	go func() { simDone <- c16SimClose(r, bins, "-simclose", r.Pick(3000, 24000), 24) }()
+	tSeq := time.Now()
+	seqResults, seqMissed := c16Sequential(e, seqCases)
+	r.Set("sequential_phase_seconds", float64(int(time.Since(tSeq).Seconds()*10))/10)
 	// slow readers: at most four at a time and nothing else running, so that the reader (not the
 	// bridge) is the bottleneck and data is still queued inside the bridge when the writer closes
 	if !r.Quick() {
@@ -656,6 +666,7 @@ func C16(r *core.Run) {
 		wg.Wait()
 	}
 	stallWG.Wait()
+	sim := <-simDone
 	fC, bC, leakC := e.settle()
 	r.Set("sockets_right_after_matrix(not_settled)", map[string]int{"frontend": fM, "backend": bM})
 	r.Set("sockets_after_all_peers_gone_for_T", map[string]int{"frontend": fC, "backend": bC})
@@ -815,6 +826,69 @@ func C16(r *core.Run) {
 			for _, i := range cands[cf.sig] {
 				r.Inconclusive(fmt.Sprintf("case %d (%s) missed the bound, the solo re-run of case %d did not (eos after %.1f ms)", i, cases[i].Class, cf.cs.ID, cf.res.LatencyMs))
 			}
+		}
+	}
+
+	// ---- sequential connections
+	for i, res := range seqResults {
+		cs := seqCases[i]
+		r.Case(cs.Class)
+		switch {
+		case res.Harness != "":
+			r.Inconclusive(fmt.Sprintf("case %d (%s): %s", cs.ID, cs.Class, res.Harness))
+		case res.Missed:
+		case res.PreCloseRecv != res.PreCloseSent || res.Altered:
+			r.Violate("C16:data-before-close-lost:"+cs.Closer+"-closes-first",
+				fmt.Sprintf("case %d (%s): the other peer's stream ended (%s) after %d of the %d bytes written before the graceful close (altered=%v)", cs.ID, cs.Class, res.EOS, res.PreCloseRecv, res.PreCloseSent, res.Altered), cs, res)
+		}
+	}
+	r.Add("sequential_connections_closed_properly", len(seqResults)-btoi(seqMissed >= 0))
+	if seqMissed >= 0 {
+		// re-run the history (not the single connection) on fresh processes
+		first := seqResults[seqMissed]
+		ce, err := c16NewEngine(r, bins, "-seqconfirm")
+		if err != nil {
+			r.Broken("confirmation topology: " + err.Error())
+		} else {
+			again, missed2 := c16Sequential(ce, c16SeqCases(2*len(seqCases), 500000))
+			f2, b2, leak2 := ce.settle()
+			judgeProcs(r, true, ce.topo.Front, ce.topo.Back)
+			ce.close()
+			detail := map[string]interface{}{"first_run_connection_number": seqMissed + 1, "first": first, "frontend_sockets": f2, "backend_sockets": b2}
+			if missed2 >= 0 {
+				detail["second_run_connection_number"] = missed2 + 1
+				detail["second"] = again[missed2]
+				r.Violate("C16:eof-not-propagated:later-connection", fmt.Sprintf("connection #%d of a sequence of short connections through the same bridge processes (%s): %s closed, the other peer saw no end-of-stream for %s; a fresh pair of processes given the same kind of sequence did the same at connection #%d, after %d proper ones",
+					seqMissed+1, seqCases[seqMissed].Class, seqCases[seqMissed].Closer, c16Bound, missed2+1, missed2), seqCases[seqMissed], detail)
+				if leak2 {
+					r.Violate("C16:sockets-leaked:later-connection", fmt.Sprintf("after that sequence, with every peer gone for %s, the fresh processes still hold sockets: frontend %d (idle %d), backend %d (idle %d)", c16Bound, f2, ce.topo.FrontBase, b2, ce.topo.BackBase), nil, detail)
+				}
+			} else {
+				r.Inconclusive(fmt.Sprintf("sequential connection #%d (%s) missed the bound; %d sequential connections on fresh processes did not", seqMissed+1, seqCases[seqMissed].Class, len(again)))
+			}
+		}
+	}
+
+	// ---- simultaneous closes
+	r.Cases("simultaneous-close|server-then-client(skew<=400us)", sim.byMode[0])
+	r.Cases("simultaneous-close|client-then-server(skew<=400us)", sim.byMode[1])
+	r.Cases("simultaneous-close|two-goroutines-released-together", sim.byMode[2])
+	r.Set("simultaneous_close_phase", map[string]interface{}{"rounds": sim.rounds, "seconds": sim.seconds, "liveness_probe": sim.probe, "sockets_frontend": sim.f, "sockets_backend": sim.b})
+	switch {
+	case sim.err != nil:
+		r.Broken("simultaneous-close topology: " + sim.err.Error())
+	case sim.problem != "" && sim.dead == "":
+		r.Inconclusive("simultaneous-close phase: " + sim.problem + " (both bridge processes alive, no crash marker)")
+	case sim.problem != "":
+		// the crash marker / unexpected exit of that process is reported by the process monitor below;
+		// this adds what the TCP peers saw
+		r.Violate("C16:bridge-process-died:simultaneous-close", fmt.Sprintf("after %d rounds in which both TCP peers of a bridged connection closed at (nearly) the same instant, %s is gone and %s", sim.rounds, sim.dead, sim.problem), nil, sim.log)
+	case sim.leaked:
+		again := c16SimClose(r, bins, "-simclose2", r.Pick(3000, 24000), 24)
+		if again.err == nil && again.leaked {
+			r.Violate("C16:sockets-leaked:simultaneous-close", fmt.Sprintf("after %d simultaneous-close rounds, with every peer gone for %s: frontend %d, backend %d sockets (repeated on fresh processes: %d, %d)", sim.rounds, c16Bound, sim.f, sim.b, again.f, again.b), nil, nil)
+		} else {
+			r.Inconclusive("sockets not released after the simultaneous-close phase, not reproduced on fresh processes")
 		}
 	}
 
@@ -1047,4 +1121,208 @@ func c16Refused(r *core.Run, bins bridgeBins, suffix string, reps int, count boo
 	}
 	judgeProcs(r, true, topo.Front, topo.Back)
 	return held, leaked, detail, nil
+}
+
+func btoi(b bool) int {
+	if b {
+		return 1
+	}
+	return 0
+}
+
+// c16SeqCases are n short connection histories to be played one after the
+// other (both close orders; never used / idle / own data in flight).
+func c16SeqCases(n, idBase int) []c16Case {
+	var out []c16Case
+	shapes := []struct {
+		flight string
+		n      int
+	}{{"virgin", 0}, {"same", 1000}, {"idle", 100}, {"same", 40000}, {"virgin", 0}, {"same", 1}}
+	for i := 0; i < n; i++ {
+		sh := shapes[i%len(shapes)]
+		c := c16Case{ID: idBase + i, Closer: []string{"client", "server"}[(i/2+i)%2], Kind: "full", Flight: sh.flight, N: sh.n, Phase: "sequential"}
+		c.Class = c16Class(&c)
+		out = append(out, c)
+	}
+	return out
+}
+
+// c16Sequential plays the cases strictly one after the other on e and stops
+// at the first one whose far peer saw no end-of-stream within the bound.
+func c16Sequential(e *c16Engine, cases []c16Case) (results []c16Result, missed int) {
+	for i, cs := range cases {
+		res := e.run(cs)
+		results = append(results, res)
+		if res.Missed {
+			return results, i
+		}
+	}
+	return results, -1
+}
+
+type c16SimResult struct {
+	rounds  int
+	byMode  [3]int
+	seconds float64
+	problem string // what the TCP peers saw go wrong
+	dead    string // which bridge process is gone
+	log     string
+	probe   string
+	leaked  bool
+	f, b    int
+	err     error
+}
+
+// c16SimClose: on a fresh pair of bridge processes, `workers` clients open a
+// bridged connection, and both TCP peers of it close at (nearly) the same
+// instant - server first by 0-400 us, client first by 0-400 us, or from two
+// goroutines released together - `rounds` times in all. Every round needs
+// the bridge to be alive (the next connection must be bridged); afterwards a
+// fresh connection must still carry data and the sockets must be released.
+func c16SimClose(r *core.Run, bins bridgeBins, suffix string, rounds, workers int) (out c16SimResult) {
+	chans := make([]chan *net.TCPConn, workers+1)
+	for i := range chans {
+		chans[i] = make(chan *net.TCPConn, 4)
+	}
+	srv, err := bridgeNewTCPServer(func(c *net.TCPConn, _ int) {
+		var id [4]byte
+		c.SetReadDeadline(time.Now().Add(10 * time.Second))
+		if _, err := io.ReadFull(c, id[:]); err != nil {
+			c.Close()
+			return
+		}
+		c.SetReadDeadline(time.Time{})
+		if w := int(binary.BigEndian.Uint32(id[:])); w < len(chans) {
+			chans[w] <- c
+		} else {
+			c.Close()
+		}
+	})
+	if err != nil {
+		out.err = err
+		return
+	}
+	defer srv.Close()
+	topo, err := bridgeStartTopo(r, bins, suffix, srv.Port)
+	if err != nil {
+		out.err = err
+		return
+	}
+	defer topo.Kill()
+	open := func(w int) (cli, far *net.TCPConn, err error) {
+		c, err := net.DialTimeout("tcp", topo.FrontAddr, 5*time.Second)
+		if err != nil {
+			return nil, nil, fmt.Errorf("a new client cannot connect to the frontend: %v", err)
+		}
+		var id [4]byte
+		binary.BigEndian.PutUint32(id[:], uint32(w))
+		c.SetWriteDeadline(time.Now().Add(5 * time.Second))
+		if _, err := c.Write(id[:]); err != nil {
+			c.Close()
+			return nil, nil, fmt.Errorf("a new client's first bytes were refused: %v", err)
+		}
+		select {
+		case s := <-chans[w]:
+			return c.(*net.TCPConn), s, nil
+		case <-time.After(c16Bound):
+			c.Close()
+			return nil, nil, fmt.Errorf("a new client's connection was not bridged to the TCP server within %s", c16Bound)
+		}
+	}
+	var mu sync.Mutex
+	var stop atomic.Bool
+	var wg sync.WaitGroup
+	t0 := time.Now()
+	for w := 0; w < workers; w++ {
+		wg.Add(1)
+		go func(w int) {
+			defer wg.Done()
+			rng := rand.New(rand.NewSource(r.Seed*1000 + int64(w)))
+			spin := func(d time.Duration) {
+				for t := time.Now(); time.Since(t) < d; {
+				}
+			}
+			for i := w; i < rounds && !stop.Load(); i += workers {
+				cli, far, err := open(w)
+				if err != nil {
+					if !stop.Swap(true) {
+						mu.Lock()
+						out.problem = err.Error()
+						mu.Unlock()
+					}
+					return
+				}
+				mode := i % 3
+				d := time.Duration(rng.Intn(400)) * time.Microsecond
+				switch mode {
+				case 0:
+					far.Close()
+					spin(d)
+					cli.Close()
+				case 1:
+					cli.Close()
+					spin(d)
+					far.Close()
+				case 2:
+					var g sync.WaitGroup
+					gate := make(chan struct{})
+					g.Add(2)
+					go func() { defer g.Done(); <-gate; far.Close() }()
+					go func() { defer g.Done(); <-gate; cli.Close() }()
+					close(gate)
+					g.Wait()
+				}
+				mu.Lock()
+				out.rounds++
+				out.byMode[mode]++
+				mu.Unlock()
+			}
+		}(w)
+	}
+	wg.Wait()
+	out.seconds = float64(int(time.Since(t0).Seconds()*10)) / 10
+	if out.problem == "" {
+		// liveness: a fresh connection is bridged and carries a byte each way
+		out.probe = "ok"
+		cli, far, err := open(workers)
+		if err != nil {
+			out.problem, out.probe = err.Error(), err.Error()
+		} else {
+			buf := make([]byte, 1)
+			cli.SetDeadline(time.Now().Add(c16Bound))
+			far.SetDeadline(time.Now().Add(c16Bound))
+			cli.Write([]byte{0x5a})
+			if _, err := io.ReadFull(far, buf); err != nil || buf[0] != 0x5a {
+				out.problem = fmt.Sprintf("the probe connection did not carry a byte to the server: %v", err)
+			}
+			far.Write([]byte{0xa5})
+			if _, err := io.ReadFull(cli, buf); out.problem == "" && (err != nil || buf[0] != 0xa5) {
+				out.problem = fmt.Sprintf("the probe connection did not carry a byte to the client: %v", err)
+			}
+			cli.Close()
+			far.Close()
+			if out.problem != "" {
+				out.probe = out.problem
+			}
+		}
+	}
+	for _, p := range []*core.Proc{topo.Front, topo.Back} {
+		if !p.Alive() && out.dead == "" {
+			out.dead = p.Name
+			out.log = core.Trunc(tail(p.Log(), 3000), 3000)
+		}
+	}
+	if out.problem == "" {
+		deadline := time.Now().Add(c16Bound)
+		for {
+			out.f, out.b = topo.Census()
+			out.leaked = out.f > topo.FrontBase || out.b > topo.BackBase
+			if !out.leaked || time.Now().After(deadline) {
+				break
+			}
+			time.Sleep(50 * time.Millisecond)
+		}
+	}
+	judgeProcs(r, true, topo.Front, topo.Back)
+	return out
 }
